@@ -12,10 +12,13 @@
 (*    "out":{submit,class,ops}, "ents":[[hash,text],...], "order":[...]}    *)
 (* where req is the abstract request the harness sent (Apq's alphabet), out *)
 (* is what the harness OBSERVED (text seen by a mutator placed after the    *)
-(* extension, response class, operations seen by a Cache decorator) and     *)
-(* ents/order are the contents / recency order read out of the real cache   *)
-(* after the request.  Apq is deterministic per request, so Step(req) fixes *)
-(* the successor and the remaining conjuncts compare it with the record.    *)
+(* extension, response class, operations seen by a Cache decorator WITH     *)
+(* THEIR RESULTS: every Get with hit / miss and the value returned).  The   *)
+(* real cache is observed only through its public Get / Add, so its         *)
+(* contents and recency order are compared through those results (ents is   *)
+(* the observed binding, used by ApqPropTrace only).  Apq is deterministic  *)
+(* per request, so Step(req) fixes the successor and the remaining          *)
+(* conjuncts compare its outcome with the record.                           *)
 (* consts.json carries the (larger) alphabet of this run.                   *)
 (* Check = FALSE (ApqTraceDiag.cfg): follow the requests only and print the *)
 (* outcome and state the specification prescribes for each line.            *)
